@@ -123,7 +123,7 @@ def run_case(js, variable_gain, tag):
         ctx = dict(g=c['g'], p=c['p'], ext=c['ext'], hasOwn=int(c['hasOwn']), hasRdm=int(c['hasRdm']), bfmin=c['bfmin'],
                    bfmax=c['bfmax'], prevFiber=int(c['prevFiber']), lossCoef=c['lossCoef'], ramanLimit=c['ramanLimit'])
         return 'refused', dict(name=tag, kind=0, jp=1, c=ctx, lib=lib, chosen=0, refused=1, hasList=0, groups=[],
-                               members=[]), str(e)
+                               ptype=U.NONE, named=U.NONE, members=[]), str(e)
     except Exception as e:                                               # noqa
         return f'EXC {type(e).__name__}', None, str(e)
     tr, cx = U.selection_traces(net, eq, rec, tag)
@@ -222,13 +222,38 @@ def selfcheck_monitor(traces, chk):
 
 
 # ------------------------------------------------------------------------------------------------------- B3
-def multiband_line(restrict=None):
-    bands = [{'f_min': 191.3e12, 'f_max': 196.0e12, 'spacing': 50e9}, {'f_min': 187.0e12, 'f_max': 190.0e12, 'spacing': 50e9}]
+MB_BANDS = [{'f_min': 191.3e12, 'f_max': 196.0e12, 'spacing': 50e9}, {'f_min': 187.0e12, 'f_max': 190.0e12, 'spacing': 50e9}]
+
+
+def multiband_line(own=None, booster=None, preamp=None, operator_type=None):
+    """C+L line ROADM A -> amp 0 -> 70 km -> amp 1 -> 105 km -> amp 2 -> 50 km -> amp 3 -> ROADM B of Multiband_amplifier
+    elements.  own: variety_list of amp 1; booster / preamp: restriction lists of ROADM A / ROADM B; operator_type: the
+    multiband type the operator gives every amplifier (its band models are still left to auto-design)"""
     spans = [[dict(kind='fiber', length_km=L)] for L in (70, 105, 50)]
     amps = {k: {'amplifiers': []} for k in range(4)}
-    if restrict:
-        amps[1] = {'amplifiers': [], 'variety_list': restrict}
-    return U.line_topology(spans, roadm_a={'params': {'design_bands': bands}}, amps=amps, amp_type='Multiband_amplifier')
+    if operator_type:
+        amps = {k: {'type_variety': operator_type} for k in range(4)}
+    if own:
+        amps[1]['variety_list'] = own
+    ra = {'params': {'per_degree_design_bands': {'amp 0': MB_BANDS}} if operator_type else {'design_bands': MB_BANDS}}
+    rb = {'params': {}}
+    if booster:
+        ra['params']['restrictions'] = {'booster_variety_list': booster, 'preamp_variety_list': []}
+    if preamp:
+        rb['params']['restrictions'] = {'booster_variety_list': [], 'preamp_variety_list': preamp}
+    return U.line_topology(spans, roadm_a=ra, roadm_b=rb, amps=amps, amp_type='Multiband_amplifier', reverse=False)
+
+
+def multiband_scenarios(eq):
+    """every multiband type of the library in turn as: own variety list of an amplifier, booster restriction of the
+    ingress ROADM, preamp restriction of the egress ROADM, operator-chosen type of every amplifier; plus no list"""
+    types = [g for g, a in eq['Edfa'].items() if a.type_def == 'multi_band']
+    yield 'auto', multiband_line()
+    for t in types:
+        yield f'own={t}', multiband_line(own=[t])
+        yield f'booster={t}', multiband_line(booster=[t])
+        yield f'preamp={t}', multiband_line(preamp=[t])
+        yield f'operator-type={t}', multiband_line(operator_type=t)
 
 
 def run_b3(chk):
@@ -281,19 +306,26 @@ def run_b3(chk):
         tr, cx = U.selection_traces(net, eq, rec, tag)
         traces += tr
         ctxs.update({c['name']: c for c in cx})
-    for mode in (True, False):
-        for restrict in (None, ['std_medium_gain_multiband']):
+    from gnpy.core.exceptions import ConfigurationError, NetworkTopologyError
+    refusals = 0
+    for mode in ((True,) if chk.tier == 'quick' else (True, False)):
+        for sname, topo in multiband_scenarios(U.load_equipment(TD / 'eqpt_config_multiband.json')):
             eq = U.load_equipment(TD / 'eqpt_config_multiband.json', power_mode=mode)
-            tag = f'synthetic_multiband_line{"-restricted" if restrict else ""}|{"power" if mode else "gain"}'
-            try:
-                net, ref, rec = U.design_json(multiband_line(restrict), eq)
-            except Exception as e:                                           # noqa
-                chk.violation(f'B3|synthetic_multiband_line|design-exception|{type(e).__name__}',
-                              dict(power_mode=mode, restrict=restrict, exception=f'{type(e).__name__}: {e}'))
+            tag = f'synthetic_multiband_line:{sname}|{"power" if mode else "gain"}'
+            net, ref, rec, exc = U.design_json_partial(topo, eq)
+            if exc is not None and not isinstance(exc, (ConfigurationError, NetworkTopologyError)):
+                chk.violation(f'B3|synthetic_multiband_line|design-exception|{type(exc).__name__}',
+                              dict(power_mode=mode, scenario=sname, exception=f'{type(exc).__name__}: {exc}'))
                 continue
-            tr, cx = U.selection_traces(net, eq, rec, tag)
+            if exc is not None:
+                refusals += 1          # the design declines the configuration; what it selected until then is still judged
+            try:
+                tr, cx = U.selection_traces(net, eq, rec, tag, complete=exc is None)
+            except Exception:                                                # noqa  half-designed network not walkable
+                continue
             traces += tr
             ctxs.update({c['name']: c for c in cx})
+    chk.cov['b3_multiband_scenarios_refused'] = refusals
     verdicts = judge(traces, chk, 'b3')
     ok = 0
     for t in traces:
@@ -305,7 +337,12 @@ def run_b3(chk):
         c = ctxs[t['name']]
         for _, clause in v['viol']:
             src = 'own' if t['c']['hasOwn'] else ('roadm' if t['c']['hasRdm'] else 'allowed')
-            sig = f'B3|{t["name"].split("|")[0]}|{clause}|kind={t["kind"]}|list={src}'
+            net_name = t['name'].split('|')[0]
+            if net_name.startswith('synthetic_multiband_line:'):
+                net_name = 'synthetic_multiband_line'           # the list kind (below) is the class, not the scenario
+            if t['kind'] != 0:
+                src = 'operator-type' if t['ptype'] != U.NONE else ('listed' if t['hasList'] else 'allowed')
+            sig = f'B3|{net_name}|{clause}|kind={t["kind"]}|list={src}'
             chk.violation(sig, dict(trace=t['name'], clause=clause, selection=c, context=t['c'],
                                     library=[dict(m, name=c.get('models', [None] * 999)[m['id']]) for m in t['lib']]))
     chk.traces += ok
